@@ -17,6 +17,7 @@ Probes per entry point:
 -/
 import DPL.Proofs.ModelsFree
 import DPL.Proofs.ModelsFreeTools
+import DPL.Proofs.TaintIR
 
 namespace DPL.C06
 open DPL DPL.PM
@@ -153,6 +154,55 @@ theorem histogramdd_noninterference (edges : List (List α)) (weighted density :
     (histogramddPlan_probeFree edges weighted density ε maxsize) D₁ D₂ outs
 
 end tools
+
+/-! ### the STATIC tie (harness/translate/taint.py → DPL/Generated/C06Flows.lean): what `flowsOk fn = true` means.
+
+The bodies of the tools and estimator methods are re-extracted from /repo's current AST on every run as functions of the
+IR of DPL/Model/TaintIR.lean (`assign` / `declass` = a forced mechanism output / `probe` / `branch` / `loop` / `ret` /
+`halt`), the data parameters' CONTENTS being the sources (their shapes are separate, clean variables).  If the checker
+accepts such a function then — whatever the pure operations and the branch decisions compute — two runs that agree on
+everything but the data and receive the same forced mechanism outputs configure the same mechanism calls and return the
+same values, whenever both return (a refusal or a PrivacyLeakWarning path ends a run without a release). -/
+
+open DPL.TaintIR in
+theorem static_taint_sound {V : Type} (f : Fn) (hf : flowsOk f = true) (I : Interp V) (e₁ e₂ : Var → V)
+    (hag : ∀ x, x ∉ f.sources → e₁ x = e₂ x) (outs : List V) (fuel : Nat) (t₁ t₂ : List (List V)) (v₁ v₂ : List V)
+    (h₁ : f.run I fuel e₁ outs = .ret t₁ v₁) (h₂ : f.run I fuel e₂ outs = .ret t₂ v₂) : t₁ = t₂ ∧ v₁ = v₂ :=
+  TaintIR.noninterference f hf I e₁ e₂ hag outs fuel t₁ t₂ v₁ v₂ h₁ h₂
+
+section static_nonvacuity
+open DPL.TaintIR
+
+/-- `m := mean(array); out := Laplace(eps).randomise(m); return out` (0 = array, 1 = eps, 2 = m, 3 = out) -/
+def tinyGood : Fn := ⟨[0], Stmt.block [.assign 2 0 [0], .declass 3 [1] [2], .ret [3]]⟩
+/-- the same with the shortcut `if upper == lower: return m` taken on DATA-independent bounds (4 = bounds): m escapes -/
+def tinyShortcut : Fn := ⟨[0], Stmt.block [.assign 2 0 [0], .branch 1 [4] (.ret [2]) .skip, .declass 3 [1] [2], .ret [3]]⟩
+/-- a mechanism whose scale is computed from the data -/
+def tinyCfg : Fn := ⟨[0], Stmt.block [.assign 2 0 [0], .declass 3 [2] [2], .ret [3]]⟩
+/-- a mechanism call that happens only on some datasets (implicit flow through the number of calls) -/
+def tinyImplicit : Fn := ⟨[0], Stmt.block [.branch 1 [0] (.declass 3 [1] [0]) .skip, .ret [3]]⟩
+/-- a loop whose body launders the data through two copies: found by the invariant iteration -/
+def tinyLoop : Fn := ⟨[0], Stmt.block [.loop 4 1 [5] (Stmt.block [.assign 3 0 [2], .assign 2 0 [0]]), .ret [3]]⟩
+
+example : flowsOk tinyGood = true := by decide
+example : flowsOk tinyShortcut = false := by decide
+example : flowsOk tinyCfg = false := by decide
+example : flowsOk tinyImplicit = false := by decide
+example : flowsOk tinyLoop = false := by decide
+
+/-- the rejected shortcut really leaks: on `Nat` with `op = head`, two datasets give two different returns -/
+example : ∃ (I : Interp Nat) (e₁ e₂ : Var → Nat), (∀ x, x ∉ tinyShortcut.sources → e₁ x = e₂ x) ∧
+    tinyShortcut.run I 9 e₁ [7] = .ret [] [1] ∧ tinyShortcut.run I 9 e₂ [7] = .ret [] [2] :=
+  ⟨⟨fun _ a => a.headD 0, fun _ _ => true⟩, fun x => if x = 0 then 1 else 0, fun x => if x = 0 then 2 else 0,
+    by intro x hx; have : x ≠ 0 := by simpa [tinyShortcut] using hx
+       simp [this], rfl, rfl⟩
+
+/-- and the accepted one returns the forced output on both -/
+example : tinyGood.run ⟨fun _ a => a.headD 0, fun _ _ => true⟩ 9 (fun x => if x = 0 then 1 else 0) [7] = .ret [[0]] [7] ∧
+    tinyGood.run ⟨fun _ a => a.headD 0, fun _ _ => true⟩ 9 (fun x => if x = 0 then 2 else 0) [7] = .ret [[0]] [7] := by
+  constructor <;> rfl
+
+end static_nonvacuity
 
 /-! ### non-vacuity: a plan that DOES read the data around the mechanism cannot be written; the closest thing, a probe
 on the data, makes the hypothesis of `plan_noninterference` fail for datasets that differ on it -/
